@@ -16,560 +16,571 @@ Open Scope Z_scope.
 
 Theorem c05_add_i32_correct : forall es a b, teval es (t_bin BAdd) (e2 (VI32 a) (VI32 b)) = Done (VI32 (add32 a b)).
 Proof. exact glsl_add_i32_correct. Qed.
-Print Assumptions c05_add_i32_correct.
 
 Theorem c05_add_u32_correct : forall es a b, teval es (t_bin BAdd) (e2 (VU32 a) (VU32 b)) = Done (VU32 (add32 a b)).
 Proof. exact glsl_add_u32_correct. Qed.
-Print Assumptions c05_add_u32_correct.
 
 Theorem c05_add_f32_correct : forall es a b, teval es (t_bin BAdd) (e2 (VF32 a) (VF32 b)) = Done (VF32 (fadd a b)).
 Proof. exact glsl_add_f32_correct. Qed.
-Print Assumptions c05_add_f32_correct.
 
 Theorem c05_sub_i32_correct : forall es a b, teval es (t_bin BSub) (e2 (VI32 a) (VI32 b)) = Done (VI32 (sub32 a b)).
 Proof. exact glsl_sub_i32_correct. Qed.
-Print Assumptions c05_sub_i32_correct.
 
 Theorem c05_sub_u32_correct : forall es a b, teval es (t_bin BSub) (e2 (VU32 a) (VU32 b)) = Done (VU32 (sub32 a b)).
 Proof. exact glsl_sub_u32_correct. Qed.
-Print Assumptions c05_sub_u32_correct.
 
 Theorem c05_sub_f32_correct : forall es a b, teval es (t_bin BSub) (e2 (VF32 a) (VF32 b)) = Done (VF32 (fsub a b)).
 Proof. exact glsl_sub_f32_correct. Qed.
-Print Assumptions c05_sub_f32_correct.
 
 Theorem c05_mul_i32_correct : forall es a b, teval es (t_bin BMul) (e2 (VI32 a) (VI32 b)) = Done (VI32 (mul32 a b)).
 Proof. exact glsl_mul_i32_correct. Qed.
-Print Assumptions c05_mul_i32_correct.
 
 Theorem c05_mul_u32_correct : forall es a b, teval es (t_bin BMul) (e2 (VU32 a) (VU32 b)) = Done (VU32 (mul32 a b)).
 Proof. exact glsl_mul_u32_correct. Qed.
-Print Assumptions c05_mul_u32_correct.
 
 Theorem c05_mul_f32_correct : forall es a b, teval es (t_bin BMul) (e2 (VF32 a) (VF32 b)) = Done (VF32 (fmul a b)).
 Proof. exact glsl_mul_f32_correct. Qed.
-Print Assumptions c05_mul_f32_correct.
 
 Theorem c05_div_i32_correct : forall es a b, in32 a -> in32 b -> defined_div_i32 a b ->
   teval es (t_bin BDiv) (e2 (VI32 a) (VI32 b)) = Done (VI32 (div_i32 a b)).
 Proof. exact glsl_div_i32_correct. Qed.
-Print Assumptions c05_div_i32_correct.
 
 Theorem c05_div_u32_correct : forall es a b, in32 a -> in32 b -> defined_div_u32 a b ->
   teval es (t_bin BDiv) (e2 (VU32 a) (VU32 b)) = Done (VU32 (div_u32 a b)).
 Proof. exact glsl_div_u32_correct. Qed.
-Print Assumptions c05_div_u32_correct.
 
 Theorem c05_div_f32_correct : forall es a b, teval es (t_bin BDiv) (e2 (VF32 a) (VF32 b)) = Done (VF32 (fdiv a b)).
 Proof. exact glsl_div_f32_correct. Qed.
-Print Assumptions c05_div_f32_correct.
 
 Theorem c05_rem_i32_correct : forall es a b, in32 a -> in32 b -> defined_rem_i32 a b ->
   teval es (t_bin BMod) (e2 (VI32 a) (VI32 b)) = Done (VI32 (rem_i32 a b)).
 Proof. exact glsl_rem_i32_correct. Qed.
-Print Assumptions c05_rem_i32_correct.
 
 Theorem c05_rem_u32_correct : forall es a b, in32 a -> in32 b -> defined_rem_u32 a b ->
   teval es (t_bin BMod) (e2 (VU32 a) (VU32 b)) = Done (VU32 (rem_u32 a b)).
 Proof. exact glsl_rem_u32_correct. Qed.
-Print Assumptions c05_rem_u32_correct.
 
 Theorem c05_and_i32_correct : forall es a b, teval es (t_bin BAnd) (e2 (VI32 a) (VI32 b)) = Done (VI32 (and32 a b)).
 Proof. exact glsl_and_i32_correct. Qed.
-Print Assumptions c05_and_i32_correct.
 
 Theorem c05_and_u32_correct : forall es a b, teval es (t_bin BAnd) (e2 (VU32 a) (VU32 b)) = Done (VU32 (and32 a b)).
 Proof. exact glsl_and_u32_correct. Qed.
-Print Assumptions c05_and_u32_correct.
 
 Theorem c05_or_i32_correct : forall es a b, teval es (t_bin BOr) (e2 (VI32 a) (VI32 b)) = Done (VI32 (or32 a b)).
 Proof. exact glsl_or_i32_correct. Qed.
-Print Assumptions c05_or_i32_correct.
 
 Theorem c05_or_u32_correct : forall es a b, teval es (t_bin BOr) (e2 (VU32 a) (VU32 b)) = Done (VU32 (or32 a b)).
 Proof. exact glsl_or_u32_correct. Qed.
-Print Assumptions c05_or_u32_correct.
 
 Theorem c05_xor_i32_correct : forall es a b, teval es (t_bin BXor) (e2 (VI32 a) (VI32 b)) = Done (VI32 (xor32 a b)).
 Proof. exact glsl_xor_i32_correct. Qed.
-Print Assumptions c05_xor_i32_correct.
 
 Theorem c05_xor_u32_correct : forall es a b, teval es (t_bin BXor) (e2 (VU32 a) (VU32 b)) = Done (VU32 (xor32 a b)).
 Proof. exact glsl_xor_u32_correct. Qed.
-Print Assumptions c05_xor_u32_correct.
 
 Theorem c05_and_bool_correct : forall es a b, teval es (t_bin BLAnd) (e2 (VBool a) (VBool b)) = Done (VBool (a && b)).
 Proof. exact glsl_and_bool_correct. Qed.
-Print Assumptions c05_and_bool_correct.
 
 Theorem c05_or_bool_correct : forall es a b, teval es (t_bin BLOr) (e2 (VBool a) (VBool b)) = Done (VBool (a || b)).
 Proof. exact glsl_or_bool_correct. Qed.
-Print Assumptions c05_or_bool_correct.
 
 Theorem c05_shl_i32_correct : forall es a b, in32 a -> in32 b -> defined_shift b ->
   teval es (t_bin BShl) (e2 (VI32 a) (VU32 b)) = Done (VI32 (shl32 a b)).
 Proof. exact glsl_shl_i32_correct. Qed.
-Print Assumptions c05_shl_i32_correct.
 
 Theorem c05_shl_u32_correct : forall es a b, in32 a -> in32 b -> defined_shift b ->
   teval es (t_bin BShl) (e2 (VU32 a) (VU32 b)) = Done (VU32 (shl32 a b)).
 Proof. exact glsl_shl_u32_correct. Qed.
-Print Assumptions c05_shl_u32_correct.
 
 Theorem c05_shr_i32_correct : forall es a b, in32 a -> in32 b -> defined_shift b ->
   teval es (t_bin BShr) (e2 (VI32 a) (VU32 b)) = Done (VI32 (shr_i32 a b)).
 Proof. exact glsl_shr_i32_correct. Qed.
-Print Assumptions c05_shr_i32_correct.
 
 Theorem c05_shr_u32_correct : forall es a b, in32 a -> in32 b -> defined_shift b ->
   teval es (t_bin BShr) (e2 (VU32 a) (VU32 b)) = Done (VU32 (shr_u32 a b)).
 Proof. exact glsl_shr_u32_correct. Qed.
-Print Assumptions c05_shr_u32_correct.
 
 Theorem c05_shl_unmasked : forall es a b, 32 <= b ->
   teval es (t_bin BShl) (e2 (VU32 a) (VU32 b)) = Fail "UB: shift amount negative or >= 32".
 Proof. exact glsl_shl_unmasked. Qed.
-Print Assumptions c05_shl_unmasked.
 
 Theorem c05_eq_i32_correct : forall es a b, teval es (t_bin BEq) (e2 (VI32 a) (VI32 b)) = Done (VBool (a =? b)).
 Proof. exact glsl_eq_i32_correct. Qed.
-Print Assumptions c05_eq_i32_correct.
 
 Theorem c05_eq_u32_correct : forall es a b, teval es (t_bin BEq) (e2 (VU32 a) (VU32 b)) = Done (VBool (a =? b)).
 Proof. exact glsl_eq_u32_correct. Qed.
-Print Assumptions c05_eq_u32_correct.
 
 Theorem c05_eq_f32_correct : forall es a b, teval es (t_bin BEq) (e2 (VF32 a) (VF32 b)) = Done (VBool (feq a b)).
 Proof. exact glsl_eq_f32_correct. Qed.
-Print Assumptions c05_eq_f32_correct.
 
 Theorem c05_eq_bool_correct : forall es a b, teval es (t_bin BEq) (e2 (VBool a) (VBool b)) = Done (VBool (Bool.eqb a b)).
 Proof. exact glsl_eq_bool_correct. Qed.
-Print Assumptions c05_eq_bool_correct.
 
 Theorem c05_ne_i32_correct : forall es a b, teval es (t_bin BNe) (e2 (VI32 a) (VI32 b)) = Done (VBool (negb (a =? b))).
 Proof. exact glsl_ne_i32_correct. Qed.
-Print Assumptions c05_ne_i32_correct.
 
 Theorem c05_ne_u32_correct : forall es a b, teval es (t_bin BNe) (e2 (VU32 a) (VU32 b)) = Done (VBool (negb (a =? b))).
 Proof. exact glsl_ne_u32_correct. Qed.
-Print Assumptions c05_ne_u32_correct.
 
 Theorem c05_ne_f32_correct : forall es a b, teval es (t_bin BNe) (e2 (VF32 a) (VF32 b)) = Done (VBool (fne a b)).
 Proof. exact glsl_ne_f32_correct. Qed.
-Print Assumptions c05_ne_f32_correct.
 
 Theorem c05_ne_bool_correct : forall es a b, teval es (t_bin BNe) (e2 (VBool a) (VBool b)) = Done (VBool (negb (Bool.eqb a b))).
 Proof. exact glsl_ne_bool_correct. Qed.
-Print Assumptions c05_ne_bool_correct.
 
 Theorem c05_lt_i32_correct : forall es a b, teval es (t_bin BLt) (e2 (VI32 a) (VI32 b)) = Done (VBool (lt_i32 a b)).
 Proof. exact glsl_lt_i32_correct. Qed.
-Print Assumptions c05_lt_i32_correct.
 
 Theorem c05_lt_u32_correct : forall es a b, teval es (t_bin BLt) (e2 (VU32 a) (VU32 b)) = Done (VBool (lt_u32 a b)).
 Proof. exact glsl_lt_u32_correct. Qed.
-Print Assumptions c05_lt_u32_correct.
 
 Theorem c05_lt_f32_correct : forall es a b, teval es (t_bin BLt) (e2 (VF32 a) (VF32 b)) = Done (VBool (flt a b)).
 Proof. exact glsl_lt_f32_correct. Qed.
-Print Assumptions c05_lt_f32_correct.
 
 Theorem c05_le_i32_correct : forall es a b, teval es (t_bin BLe) (e2 (VI32 a) (VI32 b)) = Done (VBool (le_i32 a b)).
 Proof. exact glsl_le_i32_correct. Qed.
-Print Assumptions c05_le_i32_correct.
 
 Theorem c05_le_u32_correct : forall es a b, teval es (t_bin BLe) (e2 (VU32 a) (VU32 b)) = Done (VBool (le_u32 a b)).
 Proof. exact glsl_le_u32_correct. Qed.
-Print Assumptions c05_le_u32_correct.
 
 Theorem c05_le_f32_correct : forall es a b, teval es (t_bin BLe) (e2 (VF32 a) (VF32 b)) = Done (VBool (fle a b)).
 Proof. exact glsl_le_f32_correct. Qed.
-Print Assumptions c05_le_f32_correct.
 
 Theorem c05_gt_i32_correct : forall es a b, teval es (t_bin BGt) (e2 (VI32 a) (VI32 b)) = Done (VBool (lt_i32 b a)).
 Proof. exact glsl_gt_i32_correct. Qed.
-Print Assumptions c05_gt_i32_correct.
 
 Theorem c05_gt_u32_correct : forall es a b, teval es (t_bin BGt) (e2 (VU32 a) (VU32 b)) = Done (VBool (lt_u32 b a)).
 Proof. exact glsl_gt_u32_correct. Qed.
-Print Assumptions c05_gt_u32_correct.
 
 Theorem c05_gt_f32_correct : forall es a b, teval es (t_bin BGt) (e2 (VF32 a) (VF32 b)) = Done (VBool (fgt a b)).
 Proof. exact glsl_gt_f32_correct. Qed.
-Print Assumptions c05_gt_f32_correct.
 
 Theorem c05_ge_i32_correct : forall es a b, teval es (t_bin BGe) (e2 (VI32 a) (VI32 b)) = Done (VBool (le_i32 b a)).
 Proof. exact glsl_ge_i32_correct. Qed.
-Print Assumptions c05_ge_i32_correct.
 
 Theorem c05_ge_u32_correct : forall es a b, teval es (t_bin BGe) (e2 (VU32 a) (VU32 b)) = Done (VBool (le_u32 b a)).
 Proof. exact glsl_ge_u32_correct. Qed.
-Print Assumptions c05_ge_u32_correct.
 
 Theorem c05_ge_f32_correct : forall es a b, teval es (t_bin BGe) (e2 (VF32 a) (VF32 b)) = Done (VBool (fge a b)).
 Proof. exact glsl_ge_f32_correct. Qed.
-Print Assumptions c05_ge_f32_correct.
 
 Theorem c05_neg_i32_correct : forall es a, teval es (t_un UNeg) (e1 (VI32 a)) = Done (VI32 (neg32 a)).
 Proof. exact glsl_neg_i32_correct. Qed.
-Print Assumptions c05_neg_i32_correct.
 
 Theorem c05_neg_f32_correct : forall es a, teval es (t_un UNeg) (e1 (VF32 a)) = Done (VF32 (fneg a)).
 Proof. exact glsl_neg_f32_correct. Qed.
-Print Assumptions c05_neg_f32_correct.
 
 Theorem c05_lognot_bool_correct : forall es a, teval es (t_un ULogNot) (e1 (VBool a)) = Done (VBool (negb a)).
 Proof. exact glsl_lognot_bool_correct. Qed.
-Print Assumptions c05_lognot_bool_correct.
 
 Theorem c05_bitnot_i32_correct : forall es a, teval es (t_un UBitNot) (e1 (VI32 a)) = Done (VI32 (not32 a)).
 Proof. exact glsl_bitnot_i32_correct. Qed.
-Print Assumptions c05_bitnot_i32_correct.
 
 Theorem c05_bitnot_u32_correct : forall es a, teval es (t_un UBitNot) (e1 (VU32 a)) = Done (VU32 (not32 a)).
 Proof. exact glsl_bitnot_u32_correct. Qed.
-Print Assumptions c05_bitnot_u32_correct.
 
 Theorem c05_select_correct : forall es (a b : value) (c : bool), is_poison a = false -> is_poison b = false ->
   teval es t_select (e3 a b (VBool c)) = Done (if c then b else a).
 Proof. exact glsl_select_correct. Qed.
-Print Assumptions c05_select_correct.
 
 Theorem c05_select_i32_correct : forall es a b c, teval es t_select (e3 (VI32 a) (VI32 b) (VBool c)) = Done (VI32 (if c then b else a)).
 Proof. exact glsl_select_i32_correct. Qed.
-Print Assumptions c05_select_i32_correct.
 
 Theorem c05_select_u32_correct : forall es a b c, teval es t_select (e3 (VU32 a) (VU32 b) (VBool c)) = Done (VU32 (if c then b else a)).
 Proof. exact glsl_select_u32_correct. Qed.
-Print Assumptions c05_select_u32_correct.
 
 Theorem c05_select_f32_correct : forall es a b c, teval es t_select (e3 (VF32 a) (VF32 b) (VBool c)) = Done (VF32 (if c then b else a)).
 Proof. exact glsl_select_f32_correct. Qed.
-Print Assumptions c05_select_f32_correct.
 
 Theorem c05_select_bool_correct : forall es a b c, teval es t_select (e3 (VBool a) (VBool b) (VBool c)) = Done (VBool (if c then b else a)).
 Proof. exact glsl_select_bool_correct. Qed.
-Print Assumptions c05_select_bool_correct.
 
 Theorem c05_select_vector_condition_refuted : forall es a b cs, teval es t_select (e3 a b (VVec cs)) = Fail "TYPE: ?: condition must be a scalar bool".
 Proof. exact glsl_select_vector_condition_refuted. Qed.
-Print Assumptions c05_select_vector_condition_refuted.
 
 Theorem c05_mix_select_vec2 : forall es a0 a1 b0 b1 c0 c1, teval es (ECall "mix" [va; vb; vc]) (e3 (VVec [VI32 a0; VI32 a1]) (VVec [VI32 b0; VI32 b1]) (VVec [VBool c0; VBool c1]))
   = Done (VVec [VI32 (if c0 then b0 else a0); VI32 (if c1 then b1 else a1)]).
 Proof. exact glsl_mix_select_vec2. Qed.
-Print Assumptions c05_mix_select_vec2.
 
 Theorem c05_all_correct : forall es a0 a1, teval es (t_call1 "all") (e1 (VVec [VBool a0; VBool a1])) = Done (VBool (a0 && a1)).
 Proof. exact glsl_all_correct. Qed.
-Print Assumptions c05_all_correct.
 
 Theorem c05_any_correct : forall es a0 a1, teval es (t_call1 "any") (e1 (VVec [VBool a0; VBool a1])) = Done (VBool (a0 || a1)).
 Proof. exact glsl_any_correct. Qed.
-Print Assumptions c05_any_correct.
 
 Theorem c05_abs_i32_correct : forall es a, teval es (t_call1 "abs") (e1 (VI32 a)) = Done (VI32 (abs_i32 a)).
 Proof. exact glsl_abs_i32_correct. Qed.
-Print Assumptions c05_abs_i32_correct.
 
 Theorem c05_abs_u32_refuted : forall es a, teval es (t_call1 "abs") (e1 (VU32 a)) = Fail "TYPE: abs: operand type".
 Proof. exact glsl_abs_u32_refuted. Qed.
-Print Assumptions c05_abs_u32_refuted.
 
 Theorem c05_sign_i32_correct : forall es a, in32 a -> teval es (t_call1 "sign") (e1 (VI32 a)) = Done (VI32 (sign_i32 a)).
 Proof. exact glsl_sign_i32_correct. Qed.
-Print Assumptions c05_sign_i32_correct.
 
 Theorem c05_min_i32_correct : forall es a b, teval es (t_call2 "min") (e2 (VI32 a) (VI32 b)) = Done (VI32 (min_i32 a b)).
 Proof. exact glsl_min_i32_correct. Qed.
-Print Assumptions c05_min_i32_correct.
 
 Theorem c05_min_u32_correct : forall es a b, teval es (t_call2 "min") (e2 (VU32 a) (VU32 b)) = Done (VU32 (min_u32 a b)).
 Proof. exact glsl_min_u32_correct. Qed.
-Print Assumptions c05_min_u32_correct.
 
 Theorem c05_max_i32_correct : forall es a b, teval es (t_call2 "max") (e2 (VI32 a) (VI32 b)) = Done (VI32 (max_i32 a b)).
 Proof. exact glsl_max_i32_correct. Qed.
-Print Assumptions c05_max_i32_correct.
 
 Theorem c05_max_u32_correct : forall es a b, teval es (t_call2 "max") (e2 (VU32 a) (VU32 b)) = Done (VU32 (max_u32 a b)).
 Proof. exact glsl_max_u32_correct. Qed.
-Print Assumptions c05_max_u32_correct.
 
 Theorem c05_clamp_i32_correct : forall es a lo hi, sgn lo <= sgn hi ->
   teval es (t_call3 "clamp") (e3 (VI32 a) (VI32 lo) (VI32 hi)) = Done (VI32 (clamp_i32 a lo hi)).
 Proof. exact glsl_clamp_i32_correct. Qed.
-Print Assumptions c05_clamp_i32_correct.
 
 Theorem c05_clamp_u32_correct : forall es a lo hi, lo <= hi ->
   teval es (t_call3 "clamp") (e3 (VU32 a) (VU32 lo) (VU32 hi)) = Done (VU32 (clamp_u32 a lo hi)).
 Proof. exact glsl_clamp_u32_correct. Qed.
-Print Assumptions c05_clamp_u32_correct.
 
 Theorem c05_dot_i32_vec2_correct : forall es a0 a1 b0 b1, teval es (t_int_dot 2) (e2 (VVec [VI32 a0; VI32 a1]) (VVec [VI32 b0; VI32 b1])) = dot_vals [VI32 a0; VI32 a1] [VI32 b0; VI32 b1].
 Proof. exact glsl_dot_i32_vec2_correct. Qed.
-Print Assumptions c05_dot_i32_vec2_correct.
 
 Theorem c05_dot_i32_vec3_correct : forall es a0 a1 a2 b0 b1 b2, teval es (t_int_dot 3) (e2 (VVec [VI32 a0; VI32 a1; VI32 a2]) (VVec [VI32 b0; VI32 b1; VI32 b2]))
   = dot_vals [VI32 a0; VI32 a1; VI32 a2] [VI32 b0; VI32 b1; VI32 b2].
 Proof. exact glsl_dot_i32_vec3_correct. Qed.
-Print Assumptions c05_dot_i32_vec3_correct.
 
 Theorem c05_dot_i32_vec4_correct : forall es a0 a1 a2 a3 b0 b1 b2 b3, teval es (t_int_dot 4) (e2 (VVec [VI32 a0; VI32 a1; VI32 a2; VI32 a3]) (VVec [VI32 b0; VI32 b1; VI32 b2; VI32 b3]))
   = dot_vals [VI32 a0; VI32 a1; VI32 a2; VI32 a3] [VI32 b0; VI32 b1; VI32 b2; VI32 b3].
 Proof. exact glsl_dot_i32_vec4_correct. Qed.
-Print Assumptions c05_dot_i32_vec4_correct.
 
 Theorem c05_dot_u32_vec2_correct : forall es a0 a1 b0 b1, teval es (t_int_dot 2) (e2 (VVec [VU32 a0; VU32 a1]) (VVec [VU32 b0; VU32 b1])) = dot_vals [VU32 a0; VU32 a1] [VU32 b0; VU32 b1].
 Proof. exact glsl_dot_u32_vec2_correct. Qed.
-Print Assumptions c05_dot_u32_vec2_correct.
 
 Theorem c05_dot_u32_vec3_correct : forall es a0 a1 a2 b0 b1 b2, teval es (t_int_dot 3) (e2 (VVec [VU32 a0; VU32 a1; VU32 a2]) (VVec [VU32 b0; VU32 b1; VU32 b2]))
   = dot_vals [VU32 a0; VU32 a1; VU32 a2] [VU32 b0; VU32 b1; VU32 b2].
 Proof. exact glsl_dot_u32_vec3_correct. Qed.
-Print Assumptions c05_dot_u32_vec3_correct.
 
 Theorem c05_dot_u32_vec4_correct : forall es a0 a1 a2 a3 b0 b1 b2 b3, teval es (t_int_dot 4) (e2 (VVec [VU32 a0; VU32 a1; VU32 a2; VU32 a3]) (VVec [VU32 b0; VU32 b1; VU32 b2; VU32 b3]))
   = dot_vals [VU32 a0; VU32 a1; VU32 a2; VU32 a3] [VU32 b0; VU32 b1; VU32 b2; VU32 b3].
 Proof. exact glsl_dot_u32_vec4_correct. Qed.
-Print Assumptions c05_dot_u32_vec4_correct.
 
 Theorem c05_dot_f32_vec2_correct : forall es a0 a1 b0 b1, teval es (t_call2 "dot") (e2 (VVec [VF32 a0; VF32 a1]) (VVec [VF32 b0; VF32 b1])) = dot_vals [VF32 a0; VF32 a1] [VF32 b0; VF32 b1].
 Proof. exact glsl_dot_f32_vec2_correct. Qed.
-Print Assumptions c05_dot_f32_vec2_correct.
 
 Theorem c05_dot_f32_vec3_correct : forall es a0 a1 a2 b0 b1 b2, teval es (t_call2 "dot") (e2 (VVec [VF32 a0; VF32 a1; VF32 a2]) (VVec [VF32 b0; VF32 b1; VF32 b2]))
   = dot_vals [VF32 a0; VF32 a1; VF32 a2] [VF32 b0; VF32 b1; VF32 b2].
 Proof. exact glsl_dot_f32_vec3_correct. Qed.
-Print Assumptions c05_dot_f32_vec3_correct.
 
 Theorem c05_dot_f32_vec4_correct : forall es a0 a1 a2 a3 b0 b1 b2 b3, teval es (t_call2 "dot") (e2 (VVec [VF32 a0; VF32 a1; VF32 a2; VF32 a3]) (VVec [VF32 b0; VF32 b1; VF32 b2; VF32 b3]))
   = dot_vals [VF32 a0; VF32 a1; VF32 a2; VF32 a3] [VF32 b0; VF32 b1; VF32 b2; VF32 b3].
 Proof. exact glsl_dot_f32_vec4_correct. Qed.
-Print Assumptions c05_dot_f32_vec4_correct.
 
 Theorem c05_countOneBits_i32_correct : forall es a, teval es (t_call1 "bitCount") (e1 (VI32 a)) = Done (VI32 (count_one_bits a)).
 Proof. exact glsl_countOneBits_i32_correct. Qed.
-Print Assumptions c05_countOneBits_i32_correct.
 
 Theorem c05_countOneBits_u32_correct : forall es a, teval es (t_ctor_call (TScalar KUint) "bitCount") (e1 (VU32 a)) = Done (VU32 (count_one_bits a)).
 Proof. exact glsl_countOneBits_u32_correct. Qed.
-Print Assumptions c05_countOneBits_u32_correct.
 
 Theorem c05_reverseBits_i32_correct : forall es a, teval es (t_call1 "bitfieldReverse") (e1 (VI32 a)) = Done (VI32 (reverse_bits a)).
 Proof. exact glsl_reverseBits_i32_correct. Qed.
-Print Assumptions c05_reverseBits_i32_correct.
 
 Theorem c05_reverseBits_u32_correct : forall es a, teval es (t_call1 "bitfieldReverse") (e1 (VU32 a)) = Done (VU32 (reverse_bits a)).
 Proof. exact glsl_reverseBits_u32_correct. Qed.
-Print Assumptions c05_reverseBits_u32_correct.
 
 Theorem c05_firstLeadingBit_u32_correct : forall es a, in32 a ->
   teval es (t_ctor_call (TScalar KUint) "findMSB") (e1 (VU32 a)) = Done (VU32 (first_leading_bit_u32 a)).
 Proof. exact glsl_firstLeadingBit_u32_correct. Qed.
-Print Assumptions c05_firstLeadingBit_u32_correct.
 
 Theorem c05_firstLeadingBit_i32_correct : forall es a, in32 a ->
   teval es (t_call1 "findMSB") (e1 (VI32 a)) = Done (VI32 (first_leading_bit_i32 a)).
 Proof. exact glsl_firstLeadingBit_i32_correct. Qed.
-Print Assumptions c05_firstLeadingBit_i32_correct.
 
 Theorem c05_firstTrailingBit_i32_correct : forall es a, in32 a ->
   teval es (t_call1 "findLSB") (e1 (VI32 a)) = Done (VI32 (first_trailing_bit a)).
 Proof. exact glsl_firstTrailingBit_i32_correct. Qed.
-Print Assumptions c05_firstTrailingBit_i32_correct.
 
 Theorem c05_firstTrailingBit_u32_correct : forall es a, in32 a ->
   teval es (t_ctor_call (TScalar KUint) "findLSB") (e1 (VU32 a)) = Done (VU32 (first_trailing_bit a)).
 Proof. exact glsl_firstTrailingBit_u32_correct. Qed.
-Print Assumptions c05_firstTrailingBit_u32_correct.
 
 Theorem c05_countLeadingZeros_u32_bits : forall es a, in32 a ->
   teval es t_clz (e1 (VU32 a)) = Done (VI32 (count_leading_zeros a)).
 Proof. exact glsl_countLeadingZeros_u32_bits. Qed.
-Print Assumptions c05_countLeadingZeros_u32_bits.
 
 Theorem c05_countLeadingZeros_i32_nonneg : forall es a, in32 a -> 0 <= sgn a ->
   teval es t_clz (e1 (VI32 a)) = Done (VI32 (count_leading_zeros a)).
 Proof. exact glsl_countLeadingZeros_i32_nonneg. Qed.
-Print Assumptions c05_countLeadingZeros_i32_nonneg.
 
 Theorem c05_countLeadingZeros_u32_kind_refuted : forall es a, in32 a ->
   teval es t_clz (e1 (VU32 a)) <> Done (VU32 (count_leading_zeros a)).
 Proof. exact glsl_countLeadingZeros_u32_kind_refuted. Qed.
-Print Assumptions c05_countLeadingZeros_u32_kind_refuted.
 
 Theorem c05_countLeadingZeros_i32_refuted : exists a, in32 a /\ teval false t_clz (e1 (VI32 a)) = Done (VI32 32) /\ count_leading_zeros a = 0.
 Proof. exact glsl_countLeadingZeros_i32_refuted. Qed.
-Print Assumptions c05_countLeadingZeros_i32_refuted.
 
 Theorem c05_countTrailingZeros_nonzero : forall es a, in32 a -> a <> 0 ->
   teval es t_ctz (e1 (VI32 a)) = Done (VI32 (count_trailing_zeros a)).
 Proof. exact glsl_countTrailingZeros_nonzero. Qed.
-Print Assumptions c05_countTrailingZeros_nonzero.
 
 Theorem c05_countTrailingZeros_refuted : teval false t_ctz (e1 (VI32 0)) = Done (VI32 4294967295) /\ teval false t_ctz (e1 (VU32 0)) = Done (VI32 4294967295)
   /\ count_trailing_zeros 0 = 32.
 Proof. exact glsl_countTrailingZeros_refuted. Qed.
-Print Assumptions c05_countTrailingZeros_refuted.
 
 Theorem c05_extractBits_u32_correct : forall es a b c, in32 a -> in32 b -> in32 c ->
   teval es t_extract (e3 (VU32 a) (VU32 b) (VU32 c)) = Done (VU32 (extract_bits_u32 a b c)).
 Proof. exact glsl_extractBits_u32_correct. Qed.
-Print Assumptions c05_extractBits_u32_correct.
 
 Theorem c05_extractBits_i32_correct : forall es a b c, in32 a -> in32 b -> in32 c ->
   teval es t_extract (e3 (VI32 a) (VU32 b) (VU32 c)) = Done (VI32 (extract_bits_i32 a b c)).
 Proof. exact glsl_extractBits_i32_correct. Qed.
-Print Assumptions c05_extractBits_i32_correct.
 
 Theorem c05_insertBits_u32_correct : forall es a nb c d, in32 a -> in32 nb -> in32 c -> in32 d ->
   teval es t_insert (e4 (VU32 a) (VU32 nb) (VU32 c) (VU32 d)) = Done (VU32 (insert_bits a nb c d)).
 Proof. exact glsl_insertBits_u32_correct. Qed.
-Print Assumptions c05_insertBits_u32_correct.
 
 Theorem c05_insertBits_i32_correct : forall es a nb c d, in32 a -> in32 nb -> in32 c -> in32 d ->
   teval es t_insert (e4 (VI32 a) (VI32 nb) (VU32 c) (VU32 d)) = Done (VI32 (insert_bits a nb c d)).
 Proof. exact glsl_insertBits_i32_correct. Qed.
-Print Assumptions c05_insertBits_i32_correct.
 
 Theorem c05_abs_f32_correct : forall es a, teval es (t_call1 "abs") (e1 (VF32 a)) = Done (VF32 (fabs a)).
 Proof. exact glsl_abs_f32_correct. Qed.
-Print Assumptions c05_abs_f32_correct.
 
 Theorem c05_sign_f32_correct : forall es a, teval es (t_call1 "sign") (e1 (VF32 a))
   = Done (VF32 (if is_nan_bits a then a else if flt 0 a then 1065353216 else if flt a 0 then 3212836864 else a)).
 Proof. exact glsl_sign_f32_correct. Qed.
-Print Assumptions c05_sign_f32_correct.
 
 Theorem c05_min_f32_correct : forall es a b, teval es (t_call2 "min") (e2 (VF32 a) (VF32 b)) = Done (VF32 (fmin a b)).
 Proof. exact glsl_min_f32_correct. Qed.
-Print Assumptions c05_min_f32_correct.
 
 Theorem c05_max_f32_correct : forall es a b, teval es (t_call2 "max") (e2 (VF32 a) (VF32 b)) = Done (VF32 (fmax a b)).
 Proof. exact glsl_max_f32_correct. Qed.
-Print Assumptions c05_max_f32_correct.
 
 Theorem c05_clamp_f32_correct : forall es a lo hi, flt hi lo = false ->
   teval es (t_call3 "clamp") (e3 (VF32 a) (VF32 lo) (VF32 hi)) = Done (VF32 (fmin (fmax a lo) hi)).
 Proof. exact glsl_clamp_f32_correct. Qed.
-Print Assumptions c05_clamp_f32_correct.
 
 Theorem c05_floor_f32_correct : forall es a, teval es (t_call1 "floor") (e1 (VF32 a)) = Done (VF32 (ffloor a)).
 Proof. exact glsl_floor_f32_correct. Qed.
-Print Assumptions c05_floor_f32_correct.
 
 Theorem c05_ceil_f32_correct : forall es a, teval es (t_call1 "ceil") (e1 (VF32 a)) = Done (VF32 (fceil a)).
 Proof. exact glsl_ceil_f32_correct. Qed.
-Print Assumptions c05_ceil_f32_correct.
 
 Theorem c05_trunc_f32_correct : forall es a, teval es (t_call1 "trunc") (e1 (VF32 a)) = Done (VF32 (ftrunc a)).
 Proof. exact glsl_trunc_f32_correct. Qed.
-Print Assumptions c05_trunc_f32_correct.
 
 Theorem c05_round_f32_correct : forall es a, teval es (t_call1 "round") (e1 (VF32 a)) = Done (VF32 (fround a)).
 Proof. exact glsl_round_f32_correct. Qed.
-Print Assumptions c05_round_f32_correct.
 
 Theorem c05_sqrt_f32_correct : forall es a, teval es (t_call1 "sqrt") (e1 (VF32 a)) = Done (VF32 (fsqrt a)).
 Proof. exact glsl_sqrt_f32_correct. Qed.
-Print Assumptions c05_sqrt_f32_correct.
 
 Theorem c05_saturate_f32_correct : forall es a, teval es (t_saturate 1) (e1 (VF32 a)) = Done (VF32 (fmin (fmax a 0) 1065353216)).
 Proof. exact glsl_saturate_f32_correct. Qed.
-Print Assumptions c05_saturate_f32_correct.
 
 Theorem c05_fma_f32_correct : forall es a b c, teval es t_fma_fused (e3 (VF32 a) (VF32 b) (VF32 c)) = Done (VF32 (ffma a b c)).
 Proof. exact glsl_fma_f32_correct. Qed.
-Print Assumptions c05_fma_f32_correct.
 
 Theorem c05_fma_unfused_f32_correct : forall es a b c, teval es t_fma_unfused (e3 (VF32 a) (VF32 b) (VF32 c)) = Done (VF32 (fadd (fmul a b) c)).
 Proof. exact glsl_fma_unfused_f32_correct. Qed.
-Print Assumptions c05_fma_unfused_f32_correct.
 
 Theorem c05_i32_to_u32_correct : forall es a, teval es (t_ctor (TScalar KUint)) (e1 (VI32 a)) = Done (VU32 (u32_of_i32 a)).
 Proof. exact glsl_i32_to_u32_correct. Qed.
-Print Assumptions c05_i32_to_u32_correct.
 
 Theorem c05_u32_to_i32_correct : forall es a, teval es (t_ctor (TScalar KInt)) (e1 (VU32 a)) = Done (VI32 (i32_of_u32 a)).
 Proof. exact glsl_u32_to_i32_correct. Qed.
-Print Assumptions c05_u32_to_i32_correct.
 
 Theorem c05_i32_to_f32_correct : forall es a, teval es (t_ctor (TScalar KFloat)) (e1 (VI32 a)) = Done (VF32 (f32_of_i32 a)).
 Proof. exact glsl_i32_to_f32_correct. Qed.
-Print Assumptions c05_i32_to_f32_correct.
 
 Theorem c05_u32_to_f32_correct : forall es a, teval es (t_ctor (TScalar KFloat)) (e1 (VU32 a)) = Done (VF32 (f32_of_u32 a)).
 Proof. exact glsl_u32_to_f32_correct. Qed.
-Print Assumptions c05_u32_to_f32_correct.
 
 Theorem c05_i32_to_bool_correct : forall es a, teval es (t_ctor (TScalar KBool)) (e1 (VI32 a)) = Done (VBool (bool_of_32 a)).
 Proof. exact glsl_i32_to_bool_correct. Qed.
-Print Assumptions c05_i32_to_bool_correct.
 
 Theorem c05_u32_to_bool_correct : forall es a, teval es (t_ctor (TScalar KBool)) (e1 (VU32 a)) = Done (VBool (bool_of_32 a)).
 Proof. exact glsl_u32_to_bool_correct. Qed.
-Print Assumptions c05_u32_to_bool_correct.
 
 Theorem c05_f32_to_bool_correct : forall es a, teval es (t_ctor (TScalar KBool)) (e1 (VF32 a)) = Done (VBool (negb (feq a 0))).
 Proof. exact glsl_f32_to_bool_correct. Qed.
-Print Assumptions c05_f32_to_bool_correct.
 
 Theorem c05_bool_to_i32_correct : forall es a, teval es (t_ctor (TScalar KInt)) (e1 (VBool a)) = Done (VI32 (u32_of_bool a)).
 Proof. exact glsl_bool_to_i32_correct. Qed.
-Print Assumptions c05_bool_to_i32_correct.
 
 Theorem c05_bool_to_u32_correct : forall es a, teval es (t_ctor (TScalar KUint)) (e1 (VBool a)) = Done (VU32 (u32_of_bool a)).
 Proof. exact glsl_bool_to_u32_correct. Qed.
-Print Assumptions c05_bool_to_u32_correct.
 
 Theorem c05_bool_to_f32_correct : forall es a, teval es (t_ctor (TScalar KFloat)) (e1 (VBool a)) = Done (VF32 (if a then 1065353216 else 0)).
 Proof. exact glsl_bool_to_f32_correct. Qed.
-Print Assumptions c05_bool_to_f32_correct.
 
 Theorem c05_f32_to_i32_correct : forall es a, defined_f2i a ->
   teval es (t_ctor (TScalar KInt)) (e1 (VF32 a)) = Done (VI32 (i32_of_f32 a)).
 Proof. exact glsl_f32_to_i32_correct. Qed.
-Print Assumptions c05_f32_to_i32_correct.
 
 Theorem c05_f32_to_u32_correct : forall es a, defined_f2u a ->
   teval es (t_ctor (TScalar KUint)) (e1 (VF32 a)) = Done (VU32 (u32_of_f32 a)).
 Proof. exact glsl_f32_to_u32_correct. Qed.
-Print Assumptions c05_f32_to_u32_correct.
 
 Theorem c05_f32_to_i32_unclamped : teval false (t_ctor (TScalar KInt)) (e1 (VF32 1333788672)) = Fail "UB: float to int conversion out of range".
 Proof. exact glsl_f32_to_i32_unclamped. Qed.
-Print Assumptions c05_f32_to_i32_unclamped.
 
 Theorem c05_bitcast_i32_u32_correct : forall es a, teval es (t_ctor (TScalar KUint)) (e1 (VI32 a)) = Done (VU32 a).
 Proof. exact glsl_bitcast_i32_u32_correct. Qed.
-Print Assumptions c05_bitcast_i32_u32_correct.
 
 Theorem c05_bitcast_u32_i32_correct : forall es a, teval es (t_ctor (TScalar KInt)) (e1 (VU32 a)) = Done (VI32 a).
 Proof. exact glsl_bitcast_u32_i32_correct. Qed.
-Print Assumptions c05_bitcast_u32_i32_correct.
 
 Theorem c05_bitcast_i32_f32_correct : forall es a, teval es (t_call1 "intBitsToFloat") (e1 (VI32 a)) = Done (VF32 a).
 Proof. exact glsl_bitcast_i32_f32_correct. Qed.
-Print Assumptions c05_bitcast_i32_f32_correct.
 
 Theorem c05_bitcast_u32_f32_correct : forall es a, teval es (t_call1 "uintBitsToFloat") (e1 (VU32 a)) = Done (VF32 a).
 Proof. exact glsl_bitcast_u32_f32_correct. Qed.
-Print Assumptions c05_bitcast_u32_f32_correct.
 
 Theorem c05_bitcast_f32_i32_correct : forall es a, teval es (t_call1 "floatBitsToInt") (e1 (VF32 a)) = Done (VI32 a).
 Proof. exact glsl_bitcast_f32_i32_correct. Qed.
-Print Assumptions c05_bitcast_f32_i32_correct.
 
 Theorem c05_bitcast_f32_u32_correct : forall es a, teval es (t_call1 "floatBitsToUint") (e1 (VF32 a)) = Done (VU32 a).
 Proof. exact glsl_bitcast_f32_u32_correct. Qed.
-Print Assumptions c05_bitcast_f32_u32_correct.
 
 (* the regenerated table of what naga emits today is inside the catalogue (or a listed refuted template) *)
 Theorem c05_gen_table_in_catalogue : forallb classified Naga.Gen.GlslOpTable.table = true.
 Proof. exact gen_table_in_catalogue. Qed.
-Print Assumptions c05_gen_table_in_catalogue.
+
+(* One Print Assumptions for all statements above (printing it per theorem costs more than a second each, the
+   closure being the Flocq development): the axioms are those of Flocq/Reals, reached through Base/F32.v, to which the
+   GLSL evaluator refers for its floating-point leaves.  The integer leaf lemmas do not depend on them: *)
+Definition c05_all_theorems := (c05_add_i32_correct,
+  c05_add_u32_correct,
+  c05_add_f32_correct,
+  c05_sub_i32_correct,
+  c05_sub_u32_correct,
+  c05_sub_f32_correct,
+  c05_mul_i32_correct,
+  c05_mul_u32_correct,
+  c05_mul_f32_correct,
+  c05_div_i32_correct,
+  c05_div_u32_correct,
+  c05_div_f32_correct,
+  c05_rem_i32_correct,
+  c05_rem_u32_correct,
+  c05_and_i32_correct,
+  c05_and_u32_correct,
+  c05_or_i32_correct,
+  c05_or_u32_correct,
+  c05_xor_i32_correct,
+  c05_xor_u32_correct,
+  c05_and_bool_correct,
+  c05_or_bool_correct,
+  c05_shl_i32_correct,
+  c05_shl_u32_correct,
+  c05_shr_i32_correct,
+  c05_shr_u32_correct,
+  c05_shl_unmasked,
+  c05_eq_i32_correct,
+  c05_eq_u32_correct,
+  c05_eq_f32_correct,
+  c05_eq_bool_correct,
+  c05_ne_i32_correct,
+  c05_ne_u32_correct,
+  c05_ne_f32_correct,
+  c05_ne_bool_correct,
+  c05_lt_i32_correct,
+  c05_lt_u32_correct,
+  c05_lt_f32_correct,
+  c05_le_i32_correct,
+  c05_le_u32_correct,
+  c05_le_f32_correct,
+  c05_gt_i32_correct,
+  c05_gt_u32_correct,
+  c05_gt_f32_correct,
+  c05_ge_i32_correct,
+  c05_ge_u32_correct,
+  c05_ge_f32_correct,
+  c05_neg_i32_correct,
+  c05_neg_f32_correct,
+  c05_lognot_bool_correct,
+  c05_bitnot_i32_correct,
+  c05_bitnot_u32_correct,
+  c05_select_correct,
+  c05_select_i32_correct,
+  c05_select_u32_correct,
+  c05_select_f32_correct,
+  c05_select_bool_correct,
+  c05_select_vector_condition_refuted,
+  c05_mix_select_vec2,
+  c05_all_correct,
+  c05_any_correct,
+  c05_abs_i32_correct,
+  c05_abs_u32_refuted,
+  c05_sign_i32_correct,
+  c05_min_i32_correct,
+  c05_min_u32_correct,
+  c05_max_i32_correct,
+  c05_max_u32_correct,
+  c05_clamp_i32_correct,
+  c05_clamp_u32_correct,
+  c05_dot_i32_vec2_correct,
+  c05_dot_i32_vec3_correct,
+  c05_dot_i32_vec4_correct,
+  c05_dot_u32_vec2_correct,
+  c05_dot_u32_vec3_correct,
+  c05_dot_u32_vec4_correct,
+  c05_dot_f32_vec2_correct,
+  c05_dot_f32_vec3_correct,
+  c05_dot_f32_vec4_correct,
+  c05_countOneBits_i32_correct,
+  c05_countOneBits_u32_correct,
+  c05_reverseBits_i32_correct,
+  c05_reverseBits_u32_correct,
+  c05_firstLeadingBit_u32_correct,
+  c05_firstLeadingBit_i32_correct,
+  c05_firstTrailingBit_i32_correct,
+  c05_firstTrailingBit_u32_correct,
+  c05_countLeadingZeros_u32_bits,
+  c05_countLeadingZeros_i32_nonneg,
+  c05_countLeadingZeros_u32_kind_refuted,
+  c05_countLeadingZeros_i32_refuted,
+  c05_countTrailingZeros_nonzero,
+  c05_countTrailingZeros_refuted,
+  c05_extractBits_u32_correct,
+  c05_extractBits_i32_correct,
+  c05_insertBits_u32_correct,
+  c05_insertBits_i32_correct,
+  c05_abs_f32_correct,
+  c05_sign_f32_correct,
+  c05_min_f32_correct,
+  c05_max_f32_correct,
+  c05_clamp_f32_correct,
+  c05_floor_f32_correct,
+  c05_ceil_f32_correct,
+  c05_trunc_f32_correct,
+  c05_round_f32_correct,
+  c05_sqrt_f32_correct,
+  c05_saturate_f32_correct,
+  c05_fma_f32_correct,
+  c05_fma_unfused_f32_correct,
+  c05_i32_to_u32_correct,
+  c05_u32_to_i32_correct,
+  c05_i32_to_f32_correct,
+  c05_u32_to_f32_correct,
+  c05_i32_to_bool_correct,
+  c05_u32_to_bool_correct,
+  c05_f32_to_bool_correct,
+  c05_bool_to_i32_correct,
+  c05_bool_to_u32_correct,
+  c05_bool_to_f32_correct,
+  c05_f32_to_i32_correct,
+  c05_f32_to_u32_correct,
+  c05_f32_to_i32_unclamped,
+  c05_bitcast_i32_u32_correct,
+  c05_bitcast_u32_i32_correct,
+  c05_bitcast_i32_f32_correct,
+  c05_bitcast_u32_f32_correct,
+  c05_bitcast_f32_i32_correct,
+  c05_bitcast_f32_u32_correct,
+  c05_gen_table_in_catalogue).
+Print Assumptions c05_all_theorems.
+Print Assumptions g_div_i_ok.
+Print Assumptions g_mod_i_ok.
+Print Assumptions g_findMSB_i_ok.
+Print Assumptions g_findLSB_ok.
+Print Assumptions g_bfe_i_ok.
+Print Assumptions g_bfi_ok.
 
 (* ---- non-vacuity: the definedness hypotheses are satisfiable by non-trivial instances ---- *)
 Example c05_ex_div : in32 4294967289 /\ in32 2 /\ defined_div_i32 4294967289 2 /\
